@@ -94,6 +94,12 @@ Restart(w) ==
       ia == IdleRule(st, ia0, w.clock)
   IN [w EXCEPT !.assign = a, !.status = st, !.idleAt = ia, !.store = [has |-> TRUE, assign |-> a, idleAt |-> ia], !.gen = GenOf(a), !.loaded = GenOf(a)]
 
+(* A restart at which the reload of Prometheus fails (Prometheus is not up yet - the usual order of a pod's start): *)
+(* the stored assignment is resumed all the same and nothing is written again.  Prometheus reads the generated file    *)
+(* when it comes up, at the latest with the reload of the configuration the coordinator pushes to a restarted sidecar   *)
+(* (which is where this operation ends: loaded = gen).                                                                  *)
+RestartReloadFails(w) == [Restart(w) EXCEPT !.store = w.store]
+
 Tick(w)       == [w EXCEPT !.clock = @ + 1]
 SetHead(w, n) == [w EXCEPT !.promHead = n]
 
